@@ -89,6 +89,14 @@ class L3:
         self.labels = []
         self.ops = rp.get("ops", [])
         self.lab = rp.get("lab", [])
+        # an operand the grammar takes from `seg_reg`: the production is verified for every word register, but its source form
+        # exists for ES/DS/SS/CS only -- a counterexample naming another register is replayed with ES holding that register's value
+        self.inp = inputs = dict(inputs)
+        for o in self.ops:
+            if o[0] == "wreg" and len(o) > 2 and o[2] == "seg" and g(inputs, o[1]) % 12 not in (4, 5, 6, 7):
+                self.regs["es"] = self.regs[WORD_NAMES[g(inputs, o[1]) % 12]]
+                inputs[o[1]] = 7
+                self.remapped = f"operand `{o[1]}` replayed as ES (holding the value the counterexample gives its register)"
         self.used_word = {g(inputs, o[1]) for o in self.ops if o[0] == "wreg"}
         if any(o[0] in ("bmem", "wmem") for o in self.ops):
             self.mem[self.m] = g(inputs, "in_m0") & 0xFF
@@ -189,7 +197,7 @@ class L3:
             mism.append(f"outcome: observed {obs['outcome']} expected {outcome}")
         return {"line": line, "request": req, "initial_regs": dict(self.regs), "initial_mem": {hex(a): v for a, v in self.mem.items()},
                 "observed": obs, "expected_regs": exp, "expected_mem": {hex(a): v for a, v in expmem.items()},
-                "mismatch": mism, "confirmed": bool(mism)}
+                "mismatch": mism, "confirmed": bool(mism), **({"operand_remap": self.remapped} if getattr(self, "remapped", None) else {})}
 
     # ---- shapes
     def s_binary(self):
